@@ -9,6 +9,9 @@ use serde::{Deserialize, Serialize};
 
 pub const BASE_TYPES: [&str; 3] = ["A", "B", "C"];
 
+/// user function used by `Shape::Process`
+pub const PROCESS_FN: &str = "fn gen2():\n    for i in 0..2:\n        emit R(id: i, k: 1, v: i, s: \"x\")\n";
+
 #[derive(Clone, Debug, PartialEq, Serialize, Deserialize)]
 pub enum Cond {
     /// `v op c`
@@ -103,6 +106,8 @@ pub enum Shape {
     JoinDerived { join: usize },
     Distinct { src: Src },
     Limit { src: Src, n: u32 },
+    /// `.process(gen2())` without `.emit`: every input event yields two events (id 0 and 1, v = id)
+    Process { src: Src },
 }
 
 #[derive(Clone, Debug, PartialEq, Serialize, Deserialize)]
@@ -120,11 +125,11 @@ pub fn sname(i: usize) -> String {
 
 impl Shape {
     pub fn pass_like(&self) -> bool {
-        matches!(self, Shape::Filter { .. } | Shape::Distinct { .. } | Shape::Limit { .. })
+        matches!(self, Shape::Filter { .. } | Shape::Distinct { .. } | Shape::Limit { .. } | Shape::Process { .. })
     }
     pub fn src(&self) -> Option<&Src> {
         match self {
-            Shape::Filter { src, .. } | Shape::Agg { src, .. } | Shape::Distinct { src } | Shape::Limit { src, .. } => Some(src),
+            Shape::Filter { src, .. } | Shape::Agg { src, .. } | Shape::Distinct { src } | Shape::Limit { src, .. } | Shape::Process { src } => Some(src),
             _ => None,
         }
     }
@@ -157,10 +162,11 @@ impl Shape {
             Shape::JoinDerived { .. } => "join_derived".into(),
             Shape::Distinct { .. } => "distinct".into(),
             Shape::Limit { .. } => "limit".into(),
+            Shape::Process { .. } => "process_noemit".into(),
         }
     }
     pub fn stateful(&self) -> bool {
-        !matches!(self, Shape::Filter { .. } | Shape::JoinDerived { .. })
+        !matches!(self, Shape::Filter { .. } | Shape::JoinDerived { .. } | Shape::Process { .. })
     }
 }
 
@@ -211,10 +217,16 @@ impl Prog {
             Shape::JoinDerived { join } => format!("stream {} = {}\n    .emit(tag: 1)\n", name, sname(*join)),
             Shape::Distinct { src } => format!("stream {} = {}\n    .distinct(v)\n    .emit(id: id, k: k, v: v, s: s)\n", name, src_text(src)),
             Shape::Limit { src, n } => format!("stream {} = {}\n    .limit({})\n    .emit(id: id, k: k, v: v, s: s)\n", name, src_text(src), n),
+            Shape::Process { src } => format!("stream {} = {}\n    .process(gen2())\n", name, src_text(src)),
         }
     }
     pub fn render(&self) -> String {
-        (0..self.streams.len()).map(|i| self.render_stream(i)).collect::<Vec<_>>().join("\n")
+        let body = (0..self.streams.len()).map(|i| self.render_stream(i)).collect::<Vec<_>>().join("\n");
+        if self.streams.iter().any(|s| matches!(s, Shape::Process { .. })) {
+            format!("{}\n{}", PROCESS_FN, body)
+        } else {
+            body
+        }
     }
     pub fn has_derived(&self) -> bool {
         self.streams.iter().any(|s| matches!(s.src(), Some(Src::Stream(_))) || matches!(s, Shape::JoinDerived { .. }))
@@ -266,13 +278,15 @@ pub struct ProgOpts {
     pub windows: bool,
     pub distinct_limit: bool,
     pub noemit: bool,
+    /// `.process(f())` streams without emit
+    pub process: bool,
     /// joins without emit and streams derived from joins
     pub join_derived: bool,
 }
 
 impl ProgOpts {
     pub fn full() -> ProgOpts {
-        ProgOpts { max_streams: 4, joins: true, seqs: true, seq_not: true, seq_all: true, windows: true, distinct_limit: true, noemit: true, join_derived: true }
+        ProgOpts { max_streams: 4, joins: true, seqs: true, seq_not: true, seq_all: true, windows: true, distinct_limit: true, noemit: true, process: true, join_derived: true }
     }
 }
 
@@ -315,7 +329,7 @@ pub fn prog(o: ProgOpts) -> BoxedStrategy<Prog> {
                     Src::Ty(BASE_TYPES[((r.src_sel as usize) * 3) >> 16].to_string())
                 };
                 let shape = match r.kind {
-                    0..=3 => Shape::Filter {
+                    0..=2 => Shape::Filter {
                         src,
                         cond: r.cond,
                         emit: match r.emit {
@@ -358,6 +372,7 @@ pub fn prog(o: ProgOpts) -> BoxedStrategy<Prog> {
                     }
                     10 if o.distinct_limit => Shape::Distinct { src },
                     11 if o.distinct_limit => Shape::Limit { src, n: r.n },
+                    3 if o.process && r.emit >= 3 => Shape::Process { src },
                     _ => Shape::Filter { src, cond: r.cond, emit: Emit::Pass },
                 };
                 let is_join = matches!(shape, Shape::Join { .. });
